@@ -6,6 +6,16 @@ check("C01", "proof",
       "CPython semantics as modelled in pyvc/models.py (exact ints, IEEE doubles, operator dispatch), z3, the VC generator; "
       "each path is cross-checked against CPython on one model.",
       "contract-based deductive verification: symbolic execution of real AST + z3", "DESIGN.md 4/C01")
+check("C02", "proof",
+      "logical_and/or/not/condition, the Evaluator rules conditionalor/conditionaland/expr/unary(!) on mock nodes with "
+      "arbitrary child outcomes, and the code the compiled runner emits for the same rules (obtained by running the real "
+      "transpiler on a mock node, then executed symbolically inside result()) are checked against the outcome-class "
+      "tables of the statement for every combination of operand classes {bool, error, non-bool values, raising "
+      "sub-expression}; laziness of ?: via a ghost visit log; commutativity of the tables as lemmas.",
+      "Operand classes are enumerated over a finite universe (BoolType, CELEvalError, IntType, StringType, None, ListType, "
+      "DoubleType; raising sub-expressions over result()'s exception tuple); CPython semantics as modelled; every path "
+      "cross-checked against CPython. all()/exists() fold lemma: see evidence (added in a later revision).",
+      "contract-based deductive verification: symbolic execution of real AST and of the emitted code + z3", "DESIGN.md 4/C02")
 _pending = "contracts for this property are not built yet in this revision (work in progress, see DESIGN.md section 8 build order)"
-for _p in ["C02","C03","C04","C05","C06","C07","C08","C09","C10","C11","C12","C13","C14","C15","C16","C17","C18","C19","C20"]:
+for _p in ["C03","C04","C05","C06","C07","C08","C09","C10","C11","C12","C13","C14","C15","C16","C17","C18","C19","C20"]:
     NA[_p] = _pending
